@@ -360,6 +360,8 @@ func init() {
 		"(*strings.Builder).copyCheck": extNop,
 		"strings.Clone":              func(fr *frame, args []value) value { return args[0] },
 		"internal/stringslite.Clone": func(fr *frame, args []value) value { return args[0] },
+		"internal/strconv.float32bits": ext۰math۰Float32bits,
+		"internal/strconv.float64bits": ext۰math۰Float64bits,
 		"sort.Slice":       extSortSlice,
 		"sort.SliceStable": extSortSlice,
 		"reflect.TypeFor": func(fr *frame, args []value) value {
